@@ -35,8 +35,15 @@ domain flags (read off docstrings / code)
   und    defined for undirected networks only
   conn   defined for connected networks only
   simple_ev  the leading eigenvector must be non-degenerate (ARPACK start
-             vector is random): connected graphs, tolerance 1e-6
+             vector is random): connected graphs, tolerance 1e-6; for
+             N >= 21 eigsh no longer spans the whole space (ncv = 20 < N) and
+             delivers the vector only to its convergence accuracy (measured
+             against dense eigh on P21..R209: up to 3e-6) -> tolerance 2e-5
   f32    passes float32 storage or kernels: rtol 2e-5 / atol 2e-6
+  cancel random-walk betweenness: sums of O(N^2) signed potential differences
+         weighted by w_j*w_s*w_t; values that are exactly 0 in exact arithmetic
+         come out as rounding noise proportional to W^3 (W = total node
+         weight), so the absolute tolerance is 1e-12*max(1, W^3)
   floatbin  histogram of a float-valued node sequence `src` (a method name;
          called with the pattern minus n_bins): bin membership is
          discontinuous in the float values, so when the histograms differ
@@ -170,13 +177,13 @@ _add("Network", {
     "nsi_interregional_betweenness": M(
         "node", [{"sources": "$L1", "targets": "$L2"}], flags=("und",)),
     # random-walk betweenness: components are rebuilt as undirected networks
-    "arenas_betweenness": M("node", flags=("und",)),
-    "newman_betweenness": M("node", flags=("und",)),
+    "arenas_betweenness": M("node", flags=("und", "cancel")),
+    "newman_betweenness": M("node", flags=("und", "cancel")),
     "nsi_arenas_betweenness": M("node", [
         {}, {"exclude_neighbors": False}, {"stopping_mode": "twinness"}],
-        flags=("und",)),
+        flags=("und", "cancel")),
     "nsi_newman_betweenness": M("node", [{}, {"add_local_ends": True}],
-                                flags=("und",)),
+                                flags=("und", "cancel")),
     # --- spectral ----------------------------------------------------------
     # eigsh (symmetric solver, random start vector) -> connected undirected
     "eigenvector_centrality": M("node", flags=("und", "simple_ev")),
@@ -468,3 +475,138 @@ def discover(cls, prefix=None, stop_at=None):
                p.kind in (p.POSITIONAL_OR_KEYWORD, p.POSITIONAL_ONLY)]
         out.append((name, owner_of(cls, name), len(req)))
     return out
+
+
+# ---------------------------------------------------------------------------
+# Fixed larger structured inputs for the `scale` families of C02 and C04
+# (beyond the exhaustive small-scope bound: component sizes 9/12/15/23,
+# interleaved labels, isolated nodes, connected bipartite graphs with N >= 21,
+# N just above 128 / 182 / 256).  Pure edge-list generators, no library code.
+
+
+def _ring_chords(k, step=3):
+    e = [(i, (i + 1) % k) for i in range(k)]
+    e += [(i, (i + step) % k) for i in range(0, k, 3) if k > 2 * step]
+    return k, e
+
+
+def _tree(k):
+    # deterministic irregular tree
+    return k, [(i, (i - 1) // 2 if i % 2 == 0 else (i - 1) // 3)
+               for i in range(1, k)]
+
+
+def _path(k):
+    return k, [(i, i + 1) for i in range(k - 1)]
+
+
+def _star(k):
+    return k, [(0, i) for i in range(1, k)]
+
+
+def _grid(r, c):
+    e = []
+    for i in range(r):
+        for j in range(c):
+            if j + 1 < c:
+                e.append((i * c + j, i * c + j + 1))
+            if i + 1 < r:
+                e.append((i * c + j, (i + 1) * c + j))
+    return r * c, e
+
+
+def _kbip(a, b):
+    return a + b, [(i, a + j) for i in range(a) for j in range(b)]
+
+
+def _union(parts, isolated=0):
+    """Disjoint union with *interleaved* labels: the nodes of all parts (and
+    the isolated nodes) are dealt round-robin, so no component occupies a
+    contiguous label range and none starts at 0 except the first."""
+    sizes = [p[0] for p in parts] + [1] * isolated
+    order = []           # (part, local index) in global label order
+    pos = [0] * len(sizes)
+    while len(order) < sum(sizes):
+        for q in range(len(sizes)):
+            if pos[q] < sizes[q]:
+                order.append((q, pos[q]))
+                pos[q] += 1
+    label = {pl: g for g, pl in enumerate(order)}
+    e = []
+    for q, (k, edges) in enumerate(parts):
+        e += [(label[(q, a)], label[(q, b)]) for (a, b) in edges]
+    return len(order), e
+
+
+def _hub_ring(n):
+    """Ring + chords + a hub at the highest-numbered node linked to every
+    7th node and to n-2, n-3: links touch the largest flat indices i*N+j."""
+    k, e = _ring_chords(n, 5)
+    e += [(n - 1, i) for i in range(1, n - 3, 7)]
+    e += [(n - 2, i) for i in range(0, n - 4, 11)]
+    return n, e
+
+
+def scale_graph(name):
+    """(N, edge list, directed) of a named fixed input."""
+    if name == "C9ch+K1":
+        n, e = _union([_ring_chords(9)], 1)
+    elif name == "T12+C9ch+2K1":
+        n, e = _union([_tree(12), _ring_chords(9)], 2)
+    elif name == "C15ch+T9+K1":
+        n, e = _union([_ring_chords(15, 4), _tree(9)], 1)
+    elif name == "C23ch+2K1":
+        n, e = _union([_ring_chords(23, 5)], 2)
+    elif name == "C12ch+C12ch+T15+3K1":
+        n, e = _union([_ring_chords(12), _ring_chords(12, 4), _tree(15)], 3)
+    elif name == "P21":
+        n, e = _path(21)
+    elif name == "P25":
+        n, e = _path(25)
+    elif name == "S21":
+        n, e = _star(21)
+    elif name == "S34":
+        n, e = _star(34)
+    elif name == "T25":
+        n, e = _tree(25)
+    elif name == "grid3x11":
+        n, e = _grid(3, 11)
+    elif name == "K7,14":
+        n, e = _kbip(7, 14)
+    elif name in ("R150", "R209", "R300"):
+        n, e = _hub_ring(int(name[1:]))
+    elif name == "D15ch+K1":           # directed ring with chords + isolated
+        k, ee = _ring_chords(15, 4)
+        n, e = _union([(k, ee + [(b, a) for (a, b) in ee[::4]])], 1)
+        return n, sorted(set(e)), True
+    elif name == "D24dense":
+        n = 24
+        e = [(i, j) for i in range(n) for j in range(n)
+             if i != j and (i * 7 + j * 3) % 5 != 0]
+        return n, e, True
+    else:
+        raise KeyError(name)
+    e = sorted(set((min(a, b), max(a, b)) for (a, b) in e if a != b))
+    return n, e, False
+
+
+SCALE_MID = ["C9ch+K1", "T12+C9ch+2K1", "C15ch+T9+K1", "C23ch+2K1",
+             "P21", "S21", "K7,14", "T25", "grid3x11",
+             "D15ch+K1", "D24dense"]
+SCALE_MID_THOROUGH = ["P25", "S34", "C12ch+C12ch+T15+3K1"]
+SCALE_BIG = ["R150", "R209"]
+SCALE_BIG_THOROUGH = ["R300"]
+
+
+def scale_weights(n):
+    """Unequal positive node weights (dyadic, so sums are exact)."""
+    return [0.5 + 0.25 * ((i * 37) % 11) + 0.125 * (i % 3) for i in range(n)]
+
+
+def scale_adjacency(n, edges, directed):
+    A = [[0] * n for _ in range(n)]
+    for (a, b) in edges:
+        A[a][b] = 1
+        if not directed:
+            A[b][a] = 1
+    return A
